@@ -27,13 +27,13 @@ DRIVER_MODULES = ["PsutilModel.Model.C16Gen", "PsutilModel.Spec.C16"]
 NEEDS_EXT = True
 TRUSTED = [
     "C16 world model: contents are abstracted to version numbers (decoding is C06/C13's business); /proc/<pid>/stat is always readable; a gone process never comes back and a zombie never revives (PID reuse: C01/C02); a zombie's smaps and cmdline are empty files (measured, DESIGN A.8); smaps_rollup does not exist in the modelled world (the documented fallback to smaps is what is exercised)",
-    "C16 concurrent models: one object's `_cache` (Model/C16Conc.lean, instantiated for the front-end object with 4 activations and for the platform object with 3, incl. the pre-repair wrapper shapes) and both `_cache` attributes together (Model/C16Conc2.lean: front-end wrapper over platform wrapper, activation/deactivation order from the facts actOrder/deactOrder, repaired wrapper shape only); nested blocks / RLock re-entrance and methods reading two sources are not steps of these models; CPython executes each of LOAD_ATTR / BINARY_SUBSCR / STORE_SUBSCR / STORE_ATTR / DELETE_ATTR atomically under the GIL (free-threaded builds out of scope)",
-    "C16 scheduler (harness/props/c16_sched.py): sys.settrace with f_trace_opcodes hands a baton between real threads at the shared-state bytecodes; the schedule space is sampled (quick) or enumerated for one plain call against one enter/exit pair (thorough, one-level programs); for the two-level model the parks of both objects are level-tagged and the schedules are sampled in both tiers",
-    "C16 bounded-pre-emption explorer (harness/props/c16_preempt.py): model-independent; every bytecode of memoize_when_activated's closures, Process.oneshot and oneshot_enter/exit is a scheduling point; 19 programs (explicit blocks, as_dict as the owner, nested block, exit by exception, callers on another source, methods crossing both cache levels, three threads); schedules with <= 2 pre-emptions (sampled in quick; all in thorough for the original programs, capped per new program; all during a failing-input search) and the 3-pre-emption schedules where a plain call straddles two program items of the block owner; oracle = the property's clauses on content versions (no spurious error; in-block value read in that block; plain value from the call's duration or an overlapping block)",
+    "C16 concurrent models: one object's `_cache` (Model/C16Conc.lean, instantiated for the front-end object with 4 activations and for the platform object with 3, incl. the pre-repair wrapper shapes) and both `_cache` attributes together (Model/C16Conc2.lean: front-end wrapper over platform wrapper, activation/deactivation order from the facts actOrder/deactOrder, repaired wrapper shape only, the re-entrant lock with every thread's stack of open levels: nested blocks and as_dict() = acquire · test · calls · exit are runs of this model; fact lockReentrant); methods reading two sources and several Process objects at once are not steps of these models (several objects: only the lock-order remark that no library code takes a second object's lock while holding one); CPython executes each of LOAD_ATTR / BINARY_SUBSCR / STORE_SUBSCR / STORE_ATTR / DELETE_ATTR atomically under the GIL (free-threaded builds out of scope)",
+    "C16 scheduler (harness/props/c16_sched.py): sys.settrace with f_trace_opcodes hands a baton between real threads at the shared-state bytecodes; the schedule space is sampled (quick) or enumerated for one plain call against one enter/exit pair (thorough, one-level programs); for the two-level model the parks of both objects are level-tagged and the schedules are sampled in both tiers (10 families, incl. nested blocks, as_dict() as / inside / against a block, as_dict() in both threads: a thread whose acquire is disabled in the model is simply not granted); in the sequential runs and under this scheduler `Process._lock` is wrapped so that an acquire that would block raises SelfDeadlock instead of hanging the check",
+    "C16 bounded-pre-emption explorer (harness/props/c16_preempt.py): model-independent; every bytecode of memoize_when_activated's closures, Process.oneshot and oneshot_enter/exit that is not frame-local (FRAME_LOCAL_OPS: LOAD_FAST, POP_TOP, jumps …: invisible to and blind for other threads, so pre-empting before one equals pre-empting before the next visible bytecode) is a scheduling point; 25 programs (explicit blocks, as_dict as the owner, nested block, exit by exception, callers on another source, methods crossing both cache levels, three threads, and — with `Process._lock` replaced by a cooperative stand-in that parks a thread whose acquire fails — as_dict() against another thread's open block, as_dict() / oneshot() / psutil.process_iter(attrs) from two threads on ONE shared Process object, three threads with two as_dict(); a state in which every unfinished thread waits for the lock is reported as a deadlock); schedules with <= 2 pre-emptions (sampled in quick; all in thorough for the original programs, capped per new program; all during a failing-input search) and the 3-pre-emption schedules where a plain call straddles two program items of the block owner; oracle = the property's clauses on content versions (no spurious error; in-block value read in that block; plain value from the call's duration or an overlapping block)",
 ]
 MANIFEST = {
-    "level_text": "Machine-checked Lean 4 proofs over a model of memoize_when_activated / oneshot() / as_dict(): for EVERY sequential history (enter, exit normally or by exception, nested blocks, calls, content changes, EACCES, zombie, gone, as_dict anywhere) the model refines a specification that freezes the first successful read of each block-cached source (C16_value_at_first_read), each of stat/status/smaps is read at most once per outermost block (C16_read_at_most_once), the next call after the block is fresh (C16_fresh_after_exit), nesting is a no-op (C16_nested_noop), as_dict validates before reading, returns exactly the requested keys and applies the AccessDenied/ZombieProcess/NoSuchProcess/NotImplementedError policy (C16_as_dict_*); and over ALL interleavings of any number of threads of a bytecode-granularity step model no AttributeError/KeyError escapes (C16_no_spurious_error) and every returned value was the source's content at an instant between the activation of the block whose cache served it (or the start of the call) and the return (C16_value_valid_at_some_moment). The same two theorems are proved for a model of BOTH cache levels together (front-end `_cache` over `_proc._cache`, activated in the order oneshot() does it: C16_no_spurious_error_two_level, C16_value_valid_at_some_moment_two_level, C16_lock_protocol_two_level), C16_reads_characterised states exactly which reads go through the block cache (cached routines: at most once) and which are fresh by design (identity probe of ppid(), zombie probe), and C16_as_dict_per_name_policy the per-name exception policy. The literal cross-thread clause (valid at a moment of the call itself) is false of oneshot's design and is a recorded finding with a replayed schedule; so is the stability of the owner's first-read value against a concurrent plain caller's later store (C16_owner_first_read_counterexample). The model is tied to the code by translator facts (decorator placement, activate/deactivate lists, nesting test, finally, wrapper shape, method→file map, as_dict policy) feeding the proof obligation cfg_good, and by differential runs of the real Process over a fake procfs with per-file open counting and of real threads under a deterministic bytecode scheduler.",
-    "level_note": "Partial w.r.t. threads: the theorems cover every interleaving of the MODELS' step relations (one level; two levels); the implementation is exercised on sampled (quick) / enumerated one-call-vs-one-block (thorough, one level) schedules under the model-following scheduler and on bounded-pre-emption schedules of 19 programs under the model-independent explorer. Trusted: Lean kernel + {propext, Classical.choice, Quot.sound}; translator; harness; GIL atomicity of single bytecodes; world model as listed.",
+    "level_text": "Machine-checked Lean 4 proofs over a model of memoize_when_activated / oneshot() / as_dict(): for EVERY sequential history (enter, exit normally or by exception, nested blocks, calls, content changes, EACCES, zombie, gone, as_dict anywhere) the model refines a specification that freezes the first successful read of each block-cached source (C16_value_at_first_read), each of stat/status/smaps is read at most once per outermost block (C16_read_at_most_once), the next call after the block is fresh (C16_fresh_after_exit), nesting is a no-op (C16_nested_noop), as_dict validates before reading, returns exactly the requested keys and applies the AccessDenied/ZombieProcess/NoSuchProcess/NotImplementedError policy (C16_as_dict_*); and over ALL interleavings of any number of threads of a bytecode-granularity step model no AttributeError/KeyError escapes (C16_no_spurious_error) and every returned value was the source's content at an instant between the activation of the block whose cache served it (or the start of the call) and the return (C16_value_valid_at_some_moment). The same two theorems are proved for a model of BOTH cache levels together (front-end `_cache` over `_proc._cache`, activated in the order oneshot() does it, with the re-entrant lock and every thread's nested levels as steps — nested blocks and as_dict() from any thread are runs of this model: C16_no_spurious_error_two_level, C16_value_valid_at_some_moment_two_level, C16_lock_protocol_two_level, C16_nested_noop_two_level: a re-entered level never activates or deactivates anything, C16_no_deadlock_two_level: the lock holder always has an own enabled step that brings it strictly closer to the release, so another thread's as_dict()/oneshot() on the same object only waits for a thread that can finish by itself), C16_reads_characterised states exactly which reads go through the block cache (cached routines: at most once) and which are fresh by design (identity probe of ppid(), zombie probe), and C16_as_dict_per_name_policy the per-name exception policy. The literal cross-thread clause (valid at a moment of the call itself) is false of oneshot's design and is a recorded finding with a replayed schedule; so is the stability of the owner's first-read value against a concurrent plain caller's later store (C16_owner_first_read_counterexample). Both findings have one cause (the block's dict is shared with plain callers of other threads); for the candidate repair that serves the cache to the activating thread only (fact cacheOwnerOnly, false today; fixes/C16-cache-owner-only.diff) both clauses are proved at full strength (C16_value_valid_Literal_two_level_owner_only, C16_entries_write_once_owner_only). The model is tied to the code by translator facts (decorator placement, activate/deactivate lists and order, nesting test, finally, wrapper shape incl. owner tag, RLock, method→file map, as_dict policy) feeding the proof obligation cfg_good, and by differential runs of the real Process over a fake procfs with per-file open counting and of real threads under a deterministic bytecode scheduler.",
+    "level_note": "Partial w.r.t. threads: the theorems cover every interleaving of the MODELS' step relations (one level; two levels); the implementation is exercised on sampled (quick) / enumerated one-call-vs-one-block (thorough, one level) schedules under the model-following scheduler and on bounded-pre-emption schedules of 25 programs under the model-independent explorer (thorough: complete for the three original programs on both cache levels, a recorded budget of 600 plans for each other program). No deadlock: proved for ONE object's lock; across several objects the library never takes a second Process object's lock while holding one (as_dict/process_iter/__str__ are the only internal users of oneshot()), user code nesting blocks of different objects in opposite orders is outside the property. Trusted: Lean kernel + {propext, Classical.choice, Quot.sound}; translator; harness; GIL atomicity of single bytecodes; world model as listed.",
     "technique": "Lean 4 refinement proof by simulation over histories + invariant proof over a small-step interleaving semantics + translator-fed proof obligation + differential correspondence (fake procfs with open counting; settrace bytecode scheduler)",
     "design_ref": "DESIGN.md §5 C16",
 }
@@ -57,6 +57,36 @@ FINDING_PROBE = "C16-probe-rereads-stat"
 
 class Boom(Exception):
     """the exception thrown in a block's body"""
+
+
+class SelfDeadlock(Exception):
+    """Process._lock could not be taken although no OTHER thread can hold it: the calling thread would block forever on a
+    lock it holds itself (nested oneshot() / as_dict() inside a block with a lock that is not re-entrant)"""
+
+
+class GuardLock:
+    """Stand-in for `Process._lock` in the sequential runs and under the model-following scheduler (which grants an
+    `acquire` only when the model says it is enabled): an acquire that would block is reported instead of hanging the check."""
+
+    def __init__(self, real):
+        self.real = real
+
+    def acquire(self, blocking=True, timeout=-1):
+        if self.real.acquire(blocking=False):
+            return True
+        if not blocking:
+            return False
+        raise SelfDeadlock("Process._lock would block")
+
+    def release(self):
+        self.real.release()
+
+    def __enter__(self):
+        self.acquire()
+        return self
+
+    def __exit__(self, *a):
+        self.real.release()
 
 
 OPAQUE = object()
@@ -85,6 +115,7 @@ class Impl:
         self.page = self.plat.PAGESIZE
         self.valid = list(self.ps._as_dict_attrnames)      # iteration order of the module's set
         self.p = None
+        self.dirty = set()
         self.reset()
 
     def close(self):
@@ -135,8 +166,28 @@ class Impl:
         with self.real_open(os.path.join(self.piddir, src), "w", encoding="utf-8") as f:
             f.write(self._content(src))
 
+    def reset_light(self):
+        """fresh Process object over the same (alive, nothing denied) world, every content back to version 1; the files are
+        rewritten lazily, right before the implementation opens them (explorer runs: thousands of short schedules)"""
+        if self.state != "alive" or any(self.denied.values()):
+            return self.reset()
+        self.ver = {s: 1 for s in SRCS}
+        self.dirty = set(SRCS)
+        self.total_probes = getattr(self, "total_probes", 0) + getattr(self, "probes", 0)
+        self.reads = {s: 0 for s in SRCS}
+        self.probes = 0
+        self.other_opens = 0
+        self.cms = []
+        fakeproc.reset_psutil_state(self.ps)
+        self.p = None
+        self.counting = False
+        self.p = self.ps.Process(PID)
+        self.p._lock = GuardLock(self.p._lock)
+        self.counting = True
+
     def reset(self):
         """fresh world, fresh Process object"""
+        self.dirty = set()
         self.ver = {s: 1 for s in SRCS}
         self.denied = {s: False for s in SRCS}
         self.state = "alive"
@@ -155,6 +206,7 @@ class Impl:
         self.p = None
         self.counting = False
         self.p = self.ps.Process(PID)
+        self.p._lock = GuardLock(self.p._lock)
         self.counting = True
 
     # ---- counting / fault injection
@@ -167,6 +219,9 @@ class Impl:
             rest = path[len(self.piddir) + 1:]
             if rest in self.denied:
                 src = rest
+        if src is not None and src in self.dirty:
+            self.dirty.discard(src)
+            self._write(src)                 # lazily materialised content (see reset_light / the explorer's version bumps)
         if src is not None and self.state != "gone" and self.denied[src]:
             raise PermissionError(13, "Permission denied", path)
         f = self.real_open(file, *a, **kw)
@@ -409,7 +464,7 @@ def run_histories(ctx, impl, hists):
     i = 0
     for h in hists:
         i += 1
-        impl.reset()
+        impl.reset_light()
         rows = []
         for o in h:
             m = outs[i]
@@ -758,7 +813,10 @@ CORPUS = [
 
 
 def correspond(ctx, res):
+    import time
     from harness.props import c16_sched
+    t_start = time.time()
+    phase = res.extra.setdefault("phase_wall_s", {})
     impl = Impl(ctx)
     try:
         res.rule = ("sequential: histories from 9 clause-directed families (PRNG from VERIF_SEED) + corpus + an "
@@ -772,7 +830,7 @@ def correspond(ctx, res):
         for h in CORPUS:
             hists.append(h)
             tags.append("corpus")
-        n = ctx.n(1000, 15000)
+        n = ctx.n(800, 8000)
         for i in range(n):
             fam = FAMILIES[i % len(FAMILIES)]
             hists.append(gen_history(ctx.rng, impl, fam))
@@ -818,11 +876,16 @@ def correspond(ctx, res):
         res.extra["driver_lines"] = total_lines
     finally:
         impl.close()
+    phase["sequential"] = round(time.time() - t_start, 1)
+    t1 = time.time()
     c16_sched.correspond_concurrent(ctx, res)
+    phase["model_following_scheduler"] = round(time.time() - t1, 1)
+    t1 = time.time()
     # model-independent bounded-pre-emption exploration (the failing-input search when the bytecode scheduler drifts):
     # a sample on every quick run, every schedule in the thorough tier and during a failing-input search
     from harness.props import c16_preempt
     c16_preempt.explore(ctx, res, full=(ctx.tier == "thorough" or ctx.budget_factor > 1), budget=120)
+    phase["explorer"] = round(time.time() - t1, 1)
 
 
 def search(ctx, res, broken):
